@@ -1,12 +1,12 @@
 INIT Init
 NEXT Next
 CONSTANTS
-  MaxCoord = 2
-  FeatStrands = {"+","-"}
-  QStrands = {".","+"}
+  MaxCoord = 1
+  FeatStrands = {"+"}
+  QStrands = {"."}
   NContigs = 1
   MemoCap = 4
-  MaxFeat = 2
+  MaxFeat = 3
   MaxSorts = 2
   MaxQueries = 2
   BetweenOn = TRUE
